@@ -20,7 +20,9 @@ RULE = (
     "distinct_nontrivial = number of DISTINCT abstract world signatures reached at some step of a session that executed "
     ">= 1 operation of the property's own kind; a signature hashes the sorted tuple over live handles of (kind, game, "
     "row-count bucket {0,1,2-3,4+}, sorted?, default labels?, equal-offset ties?, alias-class size bucket) plus the "
-    "kind of the last op. Counted by the machinery from the executed sessions."
+    "kind of the last op; operations whose subject is not a pooled handle (C15 twin charts, file documents) add their own abstract "
+    "component (game, operation, row-delivery histories per list, chart count, row-count buckets). Counted by the machinery "
+    "from the executed sessions."
 )
 
 
